@@ -188,9 +188,12 @@ impl DynGroup {
 
         let ident_internal = Identity::from_internal();
 
-        let (n_dyn_groups, entries): (Vec<&Entry<_, _>>, Vec<_>) = cand.iter().partition(|entry| {
-            entry.attribute_equality(Attribute::Class, &EntryClass::DynGroup.into())
-        });
+        let n_dyn_groups: Vec<&Entry<_, _>> = cand
+            .iter()
+            .filter(|entry| {
+                entry.attribute_equality(Attribute::Class, &EntryClass::DynGroup.into())
+            })
+            .collect();
 
         // DANGER: Why do we have to do this? During the use of qs for internal search
         // and other operations we need qs to be mut. But when we borrow dyn groups here we
@@ -215,8 +218,9 @@ impl DynGroup {
                 .map_err(OperationError::SchemaViolation)
                 .and_then(|f| f.resolve(&ident_internal, None, qs.get_resolve_filter_cache()))?;
 
-            // Did any of our modified entries match our dyn group filter?
-            let matches: Vec<_> = entries
+            // Did any of our created entries match our dyn group filter? A new dynamic group
+            // is an entry like any other here, and can be a member of an existing one.
+            let matches: Vec<_> = cand
                 .iter()
                 .filter_map(|e| {
                     if e.entry_match_no_index(&dg_filter_valid) {
@@ -307,16 +311,12 @@ impl DynGroup {
 
         let ident_internal = Identity::from_internal();
 
-        // Probably should be filter here instead.
-        let (_, pre_entries): (Vec<&Arc<Entry<_, _>>>, Vec<_>) =
-            pre_cand.iter().partition(|entry| {
+        let n_dyn_groups: Vec<&Entry<_, _>> = cand
+            .iter()
+            .filter(|entry| {
                 entry.attribute_equality(Attribute::Class, &EntryClass::DynGroup.into())
-            });
-
-        let (n_dyn_groups, post_entries): (Vec<&Entry<_, _>>, Vec<_>) =
-            cand.iter().partition(|entry| {
-                entry.attribute_equality(Attribute::Class, &EntryClass::DynGroup.into())
-            });
+            })
+            .collect();
 
         // DANGER: Why do we have to do this? During the use of qs for internal search
         // and other operations we need qs to be mut. But when we borrow dyn groups here we
@@ -354,9 +354,11 @@ impl DynGroup {
                 .map_err(OperationError::SchemaViolation)
                 .and_then(|f| f.resolve(&ident_internal, None, qs.get_resolve_filter_cache()))?;
 
-            let matches: Vec<_> = pre_entries
+            // Every modified entry is considered, dynamic groups included: they can be members
+            // of another dynamic group like any other entry.
+            let matches: Vec<_> = pre_cand
                 .iter()
-                .zip(post_entries.iter())
+                .zip(cand.iter())
                 .filter_map(|(pre, post)| {
                     let pre_t = pre.entry_match_no_index(&dg_filter_valid);
                     let post_t = post.entry_match_no_index(&dg_filter_valid);
